@@ -245,6 +245,34 @@ pub fn generate(seed: u64, tier: Tier) -> Case {
             params.notes.push("rebuild_in_place".into());
         }
     }
+    // The disk fills up during one build (every file is cut off after a few bytes and the
+    // build fails); the next build of the same input, into what that one left behind, with
+    // room again, gives what every other build gives.
+    if family != "exhaustive_small" && builds.len() >= 2 && rng.chance(1, 10) {
+        let mut full = worlds[0].clone();
+        full.write_limit = Some(*rng.pick(&[0u64, 1, 64, 300, 1000, 4096]));
+        worlds.push(full);
+        let w = worlds.len() - 1;
+        let at = rng.range(1, builds.len() - 1);
+        // Builds after the insertion point move up by one.
+        for c in params.chain.iter_mut() {
+            if c.0 >= at {
+                c.0 += 1;
+            }
+            if c.1 >= at {
+                c.1 += 1;
+            }
+        }
+        let mut b = builds[at].clone();
+        b.world = w;
+        b.entry = crate::run::Entry::LibBuild;
+        b.repeat = 1;
+        builds.insert(at, b);
+        if builds[at + 1].world == 0 && !params.chain.iter().any(|c| c.0 == at + 1) {
+            params.chain.push((at + 1, at));
+        }
+        params.notes.push("disk_full_then_rebuilt".into());
+    }
     Case {
         property: "C09".into(),
         family: family.into(),
